@@ -7,11 +7,9 @@ package main
 
 import (
 	"fmt"
-	"go/constant"
 	"go/token"
 	"go/types"
 	"sort"
-	"strings"
 
 	"golang.org/x/tools/go/ssa"
 )
@@ -204,9 +202,18 @@ func edgeFacts(p, s *ssa.BasicBlock) []Fact {
 // SSA values (they never change); whether the *state* they describe is still current when
 // the closure runs is a matter of the rule using them.
 func (w *World) factsAt(in ssa.Instruction) []Fact {
+	if in == nil || in.Block() == nil {
+		return nil
+	}
+	st := w.ss()
+	if r, ok := st.factsAt[in.Block()]; ok {
+		return r
+	}
+	b0 := in.Block()
+	st.factsAt[b0] = nil // cycle guard
 	var out []Fact
 	seen := map[*ssa.Function]bool{}
-	for in != nil {
+	for in != nil && in.Block() != nil {
 		fn := in.Parent()
 		if seen[fn] {
 			break
@@ -215,13 +222,19 @@ func (w *World) factsAt(in ssa.Instruction) []Fact {
 		for f := range w.facts(fn).in[in.Block()] {
 			out = append(out, f)
 		}
-		mcs := w.Closures[fn]
-		if len(mcs) != 1 {
-			break
+		if mcs := w.Closures[fn]; len(mcs) == 1 {
+			in = mcs[0]
+			continue
 		}
-		in = mcs[0]
+		if site := w.singleSiteCI(fn); site != nil {
+			in = site
+			continue
+		}
+		break
 	}
 	sort.Slice(out, func(i, j int) bool { return w.factStr(out[i]) < w.factStr(out[j]) })
+	out = w.importFacts(out)
+	st.factsAt[b0] = out
 	return out
 }
 
@@ -310,6 +323,11 @@ func callOf(v ssa.Value) (*ssa.Call, int) {
 			continue
 		case *ssa.Call:
 			return x, idx
+		case *ssa.Parameter:
+			if a, ok := argOfParam(x); ok {
+				v = a
+				continue
+			}
 		}
 		return nil, -1
 	}
@@ -354,10 +372,6 @@ func (w *World) guardCallsIn(facts []Fact, callee *ssa.Function, idx int, want s
 			}
 			continue
 		}
-		// the guard may have been moved into a helper: expand what the helper's outcome implies
-		if h := c.Call.StaticCallee(); h != nil && w.IsMod[h] && depth > 0 && h != callee {
-			out = append(out, w.expandHelper(c, i, outcome, callee, idx, want, depth-1)...)
-		}
 	}
 	return out
 }
@@ -365,8 +379,23 @@ func (w *World) guardCallsIn(facts []Fact, callee *ssa.Function, idx int, want s
 // virtVal stands for a value of a helper function expressed in the caller's terms: it only
 // carries a key.
 type virtVal struct {
-	k string
-	t types.Type
+	k    string
+	t    types.Type
+	orig ssa.Value // the helper's own value this stands for
+	site *ssa.Call // the call site it was translated at
+}
+
+// under: the helper-side SSA value behind a virtual value (v itself otherwise). Use it only
+// to inspect the SHAPE of the value; identity and keys must come from v.
+func under(v ssa.Value) ssa.Value {
+	for i := 0; i < 8; i++ {
+		vv, ok := v.(*virtVal)
+		if !ok || vv.orig == nil {
+			return v
+		}
+		v = vv.orig
+	}
+	return v
 }
 
 func (v *virtVal) Name() string                  { return v.k }
@@ -376,141 +405,30 @@ func (v *virtVal) Parent() *ssa.Function         { return nil }
 func (v *virtVal) Referrers() *[]ssa.Instruction { return nil }
 func (v *virtVal) Pos() token.Pos                { return token.NoPos }
 
-// expandHelper: hc is a call of module function h whose result hi is known to have outcome
-// hout. Returns synthetic guard calls of `callee` (result idx == want) that hold on every
-// return of h with that outcome, with their arguments translated to the caller.
-func (w *World) expandHelper(hc *ssa.Call, hi int, hout string, callee *ssa.Function, idx int, want string, depth int) []*ssa.Call {
-	h := hc.Call.StaticCallee()
-	ri := hi
-	if ri < 0 {
-		ri = 0
+// argOfParam: a parameter of a single-call-site helper is the argument passed there.
+func argOfParam(v ssa.Value) (ssa.Value, bool) {
+	p, ok := v.(*ssa.Parameter)
+	if !ok || theWorld == nil {
+		return nil, false
 	}
-	ai := w.absint()
-	type hit struct {
-		c    *ssa.Call
-		args []ssa.Value
-		key  string
+	site := theWorld.singleSiteCI(p.Parent())
+	if site == nil {
+		return nil, false
 	}
-	var acc map[string]hit
-	first := true
-	for _, ret := range returnsOf(h) {
-		if ri >= len(ret.Results) {
-			continue
-		}
-		rv := w.resolveLoad(ret.Results[ri])
-		match := false
-		var extra []Fact
-		switch hout {
-		case "nil", "nonnil":
-			_, isC := stripIface(rv).(*ssa.Const)
-			switch {
-			case isC:
-				match = isNilConst(stripIface(rv)) == (hout == "nil")
-			case ai.definitelyNonNil(rv):
-				match = hout == "nonnil"
-			default:
-				// unknown nil-ness: this return may produce the outcome; only facts that hold
-				// here anyway count (a forwarded error of an inner call: nil iff that call's is)
-				match = true
-				if ic, ii := callOf(rv); ic != nil && hout == "nil" {
-					_ = ii
-					extra = append(extra, Fact{Atom{"==", rv, ssa.NewConst(nil, rv.Type())}, true})
-				}
-			}
-		case "true", "false":
-			if cst, ok := rv.(*ssa.Const); ok && cst.Value != nil && cst.Value.Kind() == constant.Bool {
-				match = constant.BoolVal(cst.Value) == (hout == "true")
-			} else {
-				match = true
-				extra = append(extra, normCond(rv, hout == "true")...)
-			}
-		}
-		if !match {
-			continue
-		}
-		facts := append(w.factsAt(ret), extra...)
-		set := map[string]hit{}
-		for _, g := range w.guardCallsIn(facts, callee, idx, want, depth) {
-			var args []ssa.Value
-			k := ""
-			for _, a := range g.Call.Args {
-				ta := w.translateToCaller(a, h, hc)
-				args = append(args, ta)
-				k += w.key(ta) + "|"
-			}
-			set[k] = hit{g, args, k}
-		}
-		if first {
-			acc, first = set, false
-		} else {
-			for k := range acc {
-				if _, ok := set[k]; !ok {
-					delete(acc, k)
-				}
-			}
-		}
+	if i := paramIndex(p); i >= 0 && i < len(site.Common().Args) {
+		return site.Common().Args[i], true
 	}
-	var out []*ssa.Call
-	var keys []string
-	for k := range acc {
-		keys = append(keys, k)
-	}
-	sort.Strings(keys)
-	for _, k := range keys {
-		hh := acc[k]
-		syn := &ssa.Call{}
-		syn.Call.Value = callee
-		syn.Call.Args = hh.args
-		if w.synthPos == nil {
-			w.synthPos = map[ssa.Instruction]string{}
-		}
-		w.synthPos[syn] = w.instrPos(hh.c) + " (inside helper " + fname(h) + " called at " + w.instrPos(hc) + ")"
-		out = append(out, syn)
-	}
-	return out
-}
-
-// translateToCaller: a value of helper h as seen from the call hc: parameters become the
-// actual arguments; anything else becomes a virtual value whose key has the parameters
-// substituted.
-func (w *World) translateToCaller(v ssa.Value, h *ssa.Function, hc *ssa.Call) ssa.Value {
-	if vv, ok := v.(*virtVal); ok {
-		v = vv
-	}
-	if p, ok := stripIface(v).(*ssa.Parameter); ok && p.Parent() == h {
-		if i := paramIndex(p); i >= 0 && i < len(hc.Call.Args) {
-			return hc.Call.Args[i]
-		}
-	}
-	if _, ok := v.(*ssa.Const); ok {
-		return v
-	}
-	// a call inside the helper (e.g. alloc.AddressFamily()): the same call on translated arguments
-	if c, ok := stripIface(v).(*ssa.Call); ok && c.Block() != nil && c.Call.StaticCallee() != nil {
-		syn := &ssa.Call{}
-		syn.Call.Value = c.Call.StaticCallee()
-		for _, a := range c.Call.Args {
-			syn.Call.Args = append(syn.Call.Args, w.translateToCaller(a, h, hc))
-		}
-		if w.synthPos == nil {
-			w.synthPos = map[ssa.Instruction]string{}
-		}
-		w.synthPos[syn] = w.instrPos(c) + " (inside helper " + fname(h) + ")"
-		return syn
-	}
-	k := w.key(v)
-	for i, p := range h.Params {
-		if i < len(hc.Call.Args) {
-			k = strings.ReplaceAll(k, w.key(p), w.key(hc.Call.Args[i]))
-		}
-	}
-	return &virtVal{k: k, t: v.Type()}
+	return nil, false
 }
 
 // resolveLoad: when v is a load of a private single-store local (err spilled because a
 // closure captures it, named results, ...) return the stored value; else v.
 func (w *World) resolveLoad(v ssa.Value) ssa.Value {
 	for i := 0; i < 8; i++ {
+		if a, ok := argOfParam(v); ok {
+			v = a
+			continue
+		}
 		u, ok := v.(*ssa.UnOp)
 		if !ok || u.Op != token.MUL {
 			return v
